@@ -201,10 +201,10 @@ def angle (s : List Char) : PR Float :=
   | .ok r v =>
     let x := v.toFloat
     match tag "turn".toList r with
-    | .ok r2 _ => .ok r2 (x * 360.0)
+    | .ok r2 _ => .ok r2 (Sc.fmod x 1.0 * 360.0)      -- reduced to one turn first (949bf79)
     | _ =>
       match tag "grad".toList r with
-      | .ok r2 _ => .ok r2 (x * 360.0 / 400.0)
+      | .ok r2 _ => .ok r2 (Sc.fmod x 400.0 * 360.0 / 400.0)
       | _ =>
         match tag "rad".toList r with
         | .ok r2 _ => .ok r2 (x * 180.0 / pi)
